@@ -21,10 +21,10 @@
 #include "nlopt-util.h"
 
 // Timer stuff
-double   StartTime;
+THREADLOCAL double   StartTime;
 
-double MacEpsilon ;
-int FC=0, GC=0 ;
+THREADLOCAL double MacEpsilon ;
+THREADLOCAL int FC=0, GC=0 ;
 
 int stogo_verbose = 0; /* set to nonzero for verbose output */
 
